@@ -35,7 +35,7 @@ from props import c04
 ID = "C19"
 LEAN_MODULE = "RpycModel.Props.C19"
 NAMESPACE = "Rpyc.Props.C19"
-GEN = ["Brine.lean", "Consts.lean"]
+GEN = ["Brine.lean", "Consts.lean", "Wire.lean"]   # Wire.lean only through frame_eq_wire_model (C05's model)
 DRIVERS = ["drv_spec"]
 TRUSTED = [
     "the published format is a hand transcription of the 5.0.x release (lean/RpycModel/Spec/Published.lean and, "
@@ -55,13 +55,23 @@ ASSUMPTIONS = [
     "lengths >= 2**32 are refused by both sides with the packer's error (proved, not generated)",
 ]
 EXPLANATION = (
-    "Theorems (Rpyc.Props.C19): gen_eq_published and one lemma per constant group (tags, loader keys, immediate "
-    "window, struct formats, message kinds, labels, handler numbers, handler routing, EXC_*, frame constants, "
-    "completeness of consts); enc_eq_specEnc: dump v = specEnc v for all values (mutual structural induction) where "
-    "specEnc searches the form table for the shortest fitting form; frame_layout / frame_eq_spec / "
-    "recv_accepts_conforming_frame (any compressor); msg_layout_request/reply/exception, box_layout, *_wire, "
-    "dispatch_reads_published, unbox_reads_published; enc_shortest and dec_complete over the grammar Denotes if "
-    "listed among the theorems of this run (stretch goals; absent = not proved, nothing is admitted).")
+    "Theorems (Rpyc.Props.C19, all for unbounded sizes and nesting): (1) gen_eq_published and one lemma per constant "
+    "group (tags_published, load_registry_published, imm_window_published, struct_formats_published, "
+    "msg_kinds_published, labels_published, handlers_published, handler_routing_published, exc_published, "
+    "frame_consts_published, consts_complete) plus one lemma per single constant in Spec/Lemmas.lean, so a moved "
+    "constant is named; tag_table_unambiguous. (2) enc_eq_specEnc: dump v = specEnc v for every value (mutual "
+    "structural induction), where specEnc searches the published form table for the shortest fitting form instead "
+    "of following the code's if-ladder; enc_eq_specEnc_any_text covers text with lone surrogates (the tree under "
+    "check writes them in the three-byte form: a superset of the published strict-UTF-8 rule that changes no "
+    "published encoding; the real decoder accepting those forms is likewise a superset, not contrary to the "
+    "statement); doc_sample_published: the example printed in brine's documentation. (3) enc_shortest + "
+    "enc_in_grammar + pick_is_shortest_fitting: among all byte strings denoting v in the grammar Denotes, dump v is "
+    "one of minimal length. (4) dec_complete(_stream): every sentence of the grammar, in any legal (also "
+    "non-shortest) length class, is loaded as exactly the value it denotes. (5) frame_layout, frame_eq_spec, "
+    "frame_eq_wire_model (C05's independently written frame model is the same published frame), "
+    "recv_accepts_conforming_frame / recv_follows_flag (any compressor, any level, flag decides). (6) box_layout, "
+    "msg_layout_request/reply/exception, msg_layout_wire, request_wire/reply_wire/exception_wire, "
+    "dispatch_reads_published, unbox_reads_published. Nothing is admitted; all six items of DESIGN 5/C19 are proved.")
 
 LIMIT = c04.LIMIT
 
@@ -703,7 +713,7 @@ def correspondence(ctx):
         add(line, "const", line, want, "const:" + line.split()[-1])
 
     # (a) values
-    n_vals = ctx.budget(4400, 120000)
+    n_vals = ctx.budget(4000, 30000)
     n_boundary = len(c04.boundary_values())
     forms_used = {}
     for vi, v in enumerate(value_stream(r, n_vals)):
@@ -798,7 +808,7 @@ def correspondence(ctx):
 
     ctx.log("packets done: %d op lines so far" % len(lines))
     # (c) conversations
-    n_conv = ctx.budget(100, 1500)
+    n_conv = ctx.budget(100, 1000)
     conv_forms = {}
     for direction in ("client", "server"):
         for idx in range(n_conv):
